@@ -270,3 +270,19 @@ package lua
 //@ ensures  "table-primitive": old(isTab(RKv(L, opB(inst))) && !isFn(mtEvent(L, RKv(L, opB(inst)), "__len"))) ==> result == 0 && ncalls() == old(ncalls()) && isNum(R(L, opA(inst))) && (exists n int :: old(isListLen(tab(RKv(L, opB(inst))), n)) && same(R(L, opA(inst)), mkNum(i2f(n))))
 //@ raises when !isStr(RKv(L, opB(inst))) && (!isTab(RKv(L, opB(inst))) || isFn(mtEvent(L, RKv(L, opB(inst)), "__len")))
 //@ modifies everything
+
+// tostring(v) through __tostring / CallMeta(obj, event): the handler is called once with the object, asking for exactly ONE
+// result, which is the answer; the caller's own stack is as it was (one value in, one out)
+//@ func (*LState).ToStringMeta [C04 C10]
+//@ entry-assumes IdxOK(ls) && valOK(lv) && Inv_gfn(ls)
+//@ raises when true
+//@ ensures  "handler-asked-for-one-result": old(isFn(mtEvent(ls, lv, "__tostring"))) ==> ncalls() == old(ncalls()) + 1 && callfn(old(ncalls())) == fnid("(*LState).Call") && callargInt(old(ncalls()), 1) == 1 && callargInt(old(ncalls()), 2) == 1 && callargLV(old(ncalls()), 10) == old(mtEvent(ls, lv, "__tostring")) && callargLV(old(ncalls()), 11) == lv && result == callresLV(old(ncalls()), 10) && top(ls) == old(top(ls))
+//@ ensures  "no-handler": !old(isFn(mtEvent(ls, lv, "__tostring"))) ==> ncalls() == old(ncalls()) && isStr(result) && top(ls) == old(top(ls))
+//@ modifies everything
+
+//@ func (*LState).CallMeta [C04 C10]
+//@ entry-assumes IdxOK(ls) && valOK(obj) && Inv_gfn(ls)
+//@ raises when true
+//@ ensures  "handler-asked-for-one-result": old(isFn(mtEvent(ls, obj, event))) ==> ncalls() == old(ncalls()) + 1 && callfn(old(ncalls())) == fnid("(*LState).Call") && callargInt(old(ncalls()), 1) == 1 && callargInt(old(ncalls()), 2) == 1 && callargLV(old(ncalls()), 10) == old(mtEvent(ls, obj, event)) && callargLV(old(ncalls()), 11) == obj && result == callresLV(old(ncalls()), 10) && top(ls) == old(top(ls))
+//@ ensures  "no-handler": !old(isFn(mtEvent(ls, obj, event))) ==> ncalls() == old(ncalls()) && result == LNil && top(ls) == old(top(ls))
+//@ modifies everything
